@@ -16,7 +16,6 @@ import (
 	"sigs.k8s.io/controller-runtime/pkg/reconcile"
 
 	corev1alpha1 "package-operator.run/apis/core/v1alpha1"
-	"package-operator.run/internal/apis/manifests"
 	"package-operator.run/internal/controllers/objecttemplate"
 	"package-operator.run/internal/dynamiccache"
 )
@@ -28,7 +27,7 @@ import (
 func (w *World) buildTemplateController() {
 	c := objecttemplate.NewObjectTemplateController(w.Client, w.Uncached, logr.Discard(), w.Dyn, w.Scheme, w.Store.RESTMapper(),
 		objecttemplate.ControllerConfig{OptionalResourceRetryInterval: 30 * time.Second, ResourceRetryInterval: 30 * time.Second})
-	c.SetEnvironment(&manifests.PackageEnvironment{Kubernetes: manifests.PackageEnvironmentKubernetes{Version: "v1.28.0"}})
+	c.SetEnvironment(w.theEnvironment())
 	w.Ctrls["tm"] = c
 }
 
@@ -51,6 +50,10 @@ data:
   a: {{ .config.a | quote }}
   b: {{ if hasKey .config "b" }}{{ .config.b | quote }}{{ else }}"unset"{{ end }}
   c: "two"
+`
+
+// the rendered object depends on the environment of the template's namespace (HyperShift hosted cluster)
+const tmplEnvLine = `  h: {{ with .environment.hyperShift }}{{ with .hostedCluster }}{{ .metadata.name | quote }}{{ else }}"none"{{ end }}{{ else }}"nohs"{{ end }}
 `
 
 const tmplBad = `apiVersion: v1
@@ -91,6 +94,8 @@ func newObjectTemplate(class string) *corev1alpha1.ObjectTemplate {
 		t.Spec.Sources[0].Namespace = "other"
 	case "optionalFirst":
 		t.Spec.Sources = []corev1alpha1.ObjectTemplateSource{srcB, srcA}
+	case "envHosted":
+		t.Spec.Template = tmplOK + tmplEnvLine
 	case "secretSrc":
 		// the required source is a Secret: a kind the template's own target watch does not cover
 		t.Spec.Sources[0].Kind = "Secret"
@@ -110,6 +115,19 @@ func neighbourTemplate() *corev1alpha1.ObjectTemplate {
 	t.Spec.Sources = []corev1alpha1.ObjectTemplateSource{{APIVersion: "v1", Kind: "Secret", Name: "src-z",
 		Items: []corev1alpha1.ObjectTemplateSourceItem{{Key: ".data.z", Destination: ".a"}}}}
 	t.Spec.Template = strings.ReplaceAll(tmplOK, "name: out", "name: out0")
+	return t
+}
+
+// hostedTemplate: an ObjectTemplate in the hosted cluster's namespace (no sources); its output carries the hosted
+// cluster's name. It shares the controller - and its environment sink - with t1.
+var (
+	KTH   = Key{pkoGroup, "ObjectTemplate", HostedNS, "th"}
+	KOutH = Key{"", "ConfigMap", HostedNS, "out-h"}
+)
+
+func hostedTemplate() *corev1alpha1.ObjectTemplate {
+	t := &corev1alpha1.ObjectTemplate{ObjectMeta: metav1.ObjectMeta{Name: "th", Namespace: HostedNS}}
+	t.Spec.Template = "apiVersion: v1\nkind: ConfigMap\nmetadata:\n  name: out-h\ndata:\n" + tmplEnvLine
 	return t
 }
 
@@ -201,7 +219,7 @@ func (tw *tmWorld) runPass(k Key) {
 	delete(tw.timers, k)
 	// snapshot of every object the pass may touch, to feed its own writes back as triggers
 	keys := []Key{KCM("src-a"), KCM("src-b"), KCM("out"), {"", "ConfigMap", "other", "src-a"}, {"", "ConfigMap", "other", "out"},
-		{"", "Secret", NS, "src-a"}, {"", "Secret", NS, "src-z"}, KCM("out0"), {"example.verif", "Widget", NS, "src-a"}}
+		{"", "Secret", NS, "src-a"}, {"", "Secret", NS, "src-z"}, KCM("out0"), {"example.verif", "Widget", NS, "src-a"}, KOutH}
 	before := map[Key]map[string]any{}
 	for _, x := range keys {
 		before[x] = w.Store.Snapshot(x)
@@ -263,7 +281,7 @@ func cmWith(name, key, val string) *unstructured.Unstructured {
 
 func init() {
 	extraDrivers["template-walk"] = func(w *World, _ *flag.FlagSet, a driverArgs) int {
-		classes := []string{"ok", "ok", "ok2", "optionalFirst", "bad", "targetOtherNS", "sourceOtherNS", "secretSrc", "secretSrc", "widgetSrc", "widgetSrc"}
+		classes := []string{"ok", "ok", "ok2", "optionalFirst", "bad", "targetOtherNS", "sourceOtherNS", "secretSrc", "secretSrc", "widgetSrc", "widgetSrc", "envHosted", "envHosted"}
 		for i := 0; i < a.n; i++ {
 			if i%a.shards != a.shard {
 				continue
@@ -276,6 +294,14 @@ func init() {
 			tw := &tmWorld{w: w, pending: map[Key]bool{}, timers: map[Key]bool{}, class: class}
 			tw.handler = dynamiccache.NewEnqueueWatchingObjects(w.Dyn, &corev1alpha1.ObjectTemplate{}, w.Scheme)
 			w.Emit(Event{Actor: "sim", Ev: "Row", Key: "-", Args: map[string]any{"row": i, "class": class, "classes": map[string]any{}, "flavour": "tm", "hasDup": false}})
+			if class == "envHosted" {
+				w.EnableHyperShift()
+				tw.handler = dynamiccache.NewEnqueueWatchingObjects(w.Dyn, &corev1alpha1.ObjectTemplate{}, w.Scheme)
+				if rng.Intn(2) == 0 {
+					tw.env(KTH, func() { w.EnvCreate(hostedTemplate()) })
+					tw.settle()
+				}
+			}
 			// another template that shares the dynamic cache and already watches Secrets and ConfigMaps
 			if class == "secretSrc" || rng.Intn(3) == 0 {
 				z := Obj(gvkSecret, NS, "src-z")
@@ -352,12 +378,31 @@ func init() {
 							})
 						})
 					}
+				case 8:
+					// the template in the hosted cluster's namespace appears, is edited (reconciled again) or goes away
+					if class == "envHosted" {
+						switch {
+						case w.Store.Snapshot(KTH) == nil:
+							tw.env(KTH, func() { w.EnvCreate(hostedTemplate()) })
+						case rng.Intn(3) == 0:
+							tw.env(KTH, func() { w.EnvDelete(KTH, false) })
+						default:
+							tw.env(KTH, func() {
+								w.EnvMutate("EnvEdit", KTH, map[string]any{"tag": v}, func(m map[string]any) {
+									metaOf(m)["annotations"] = map[string]any{"touch": v}
+								})
+							})
+						}
+					}
 				case 7:
 					if rng.Intn(4) == 0 {
 						w.Restart()
 						tw.pending[KOT("t1")] = true // a restarted manager reconciles every object once
 						if w.Store.Snapshot(KOT("t0")) != nil {
 							tw.pending[KOT("t0")] = true
+						}
+						if w.Store.Snapshot(KTH) != nil {
+							tw.pending[KTH] = true
 						}
 					}
 				}
